@@ -4,8 +4,6 @@ import hashlib
 import json
 import re
 
-POLICY_DIRECTIVES = {"client_max_body_size", "client_body_timeout", "keepalive_requests", "keepalive_time",
-                     "keepalive_timeout", "otel_trace", "otel_trace_context", "otel_span_name"}
 # crossplane v0.4.71 does not know the NGINX Plus R33 mgmt directives; everything else it reports counts
 XP_KNOWN_GAPS = ('unknown directive "license_token"', 'unknown directive "deployment_context"')
 # clauses of the Lean judge that crossplane's parser/analyser can also see
@@ -34,12 +32,14 @@ def classify(issue, case, all_issues):
         m = re.match(r"http \$(group_[A-Za-z0-9_]+_rule\d+)$", d)
         if m and m.group(1) in case.get("colliding", []):
             return "C03:mangle-collision-double-hyphen"
-    dup_policy_inc = [i for i in all_issues if i["c"] == "duplicate-include"
-                      and re.match(r"/etc/nginx/includes/(ClientSettingsPolicy|ObservabilityPolicy)_", i["d"])]
-    if c == "duplicate-include" and issue in dup_policy_inc:
+    # the judge expands a file that is included twice in one block only once and reports it as duplicate-include, so a
+    # duplicate-directive issue always has two DIFFERENT sources (e.g. two policies that both survived conflict resolution)
+    if c == "duplicate-include" and re.match(r"/etc/nginx/includes/(ClientSettingsPolicy|ObservabilityPolicy)_\S+: ", d):
         return "C03:duplicate-policy-include-per-location"
-    if c == "duplicate-directive" and dup_policy_inc and d.split(" ")[0] in POLICY_DIRECTIVES and d.endswith(" in location"):
-        return "C03:duplicate-policy-include-per-location"
+    if c == "duplicate-directive" and d.endswith(" in location") and d.split(" ")[0] in case.get("cross_kind_csp", []):
+        return "C03:policy-overlap-check-ignores-route-kind"
+    if c == "duplicate-directive" and d.endswith(" in location") and d.split(" ")[0] in case.get("cross_route_csp", []):
+        return "C03:policy-overlap-check-compares-hostname-lists"
     if c == "bad-regex":
         m = re.match(r"rewrite \^(\S*?): ", d)
         if m:
@@ -73,8 +73,7 @@ def run(ctx):
     if lines and getattr(ctx, "harness_rc", 0) != 0:
         ctx.broken(f"harness exited {ctx.harness_rc}", detail=ctx.harness_err)
 
-    verdicts = ctx.driver("judge", lines) if lines else []
-    models = ctx.driver("model", lines) if lines else []
+    verdicts, models = _drive_parallel(ctx, lines) if lines else ([], [])
 
     clause_hist, sig_hist, tag_hist = collections.Counter(), collections.Counter(), collections.Counter()
     tokens = names = dirs = clean = evaluated = panics = 0
@@ -180,6 +179,25 @@ def run(ctx):
         "variable scanning, PCRE-subset parser, unix socket path limit",
         "nginx-go-crossplane v0.4.71 as second opinion (known gap: Plus R33 mgmt directives license_token/deployment_context)",
     ])
+
+
+def _drive_parallel(ctx, lines, parts=6):
+    """The Lean driver is single-threaded: run it on slices of the cases concurrently (each slice gets the static lines)."""
+    import concurrent.futures
+    static = [l for l in lines if l.startswith('{"id":"static-')]
+    cases = [l for l in lines if not l.startswith('{"id":"static-')]
+    size = max(1, (len(cases) + parts - 1) // parts)
+    chunks = [cases[i:i + size] for i in range(0, len(cases), size)]
+
+    def one(args):
+        mode, chunk = args
+        return ctx.driver(mode, static + chunk)[len(static):]
+
+    with concurrent.futures.ThreadPoolExecutor(max_workers=2 * len(chunks) or 1) as ex:
+        js = list(ex.map(one, [("judge", ch) for ch in chunks]))
+        ms = list(ex.map(one, [("model", ch) for ch in chunks]))
+    stat = ['{"static":true}'] * len(static)
+    return stat + [v for ch in js for v in ch], stat + [v for ch in ms for v in ch]
 
 
 def _replay(ctx, case, issue=None):
